@@ -83,6 +83,9 @@ FLAVOURS = [
     {"p_attach": 0.42, "p_detach": 0.22, "p_reserved": 0.03, "pr": 0.22, "pb": 0.1},      # metadata-heavy, many reopen points
     {"data_weights": {"copy": 6, "move": 5, "delete": 4, "set_dataset": 3, "create_group": 3, "set_attr": 1, "del_attr": 0.5},
      "p_attach": 0.3, "p_detach": 0.05, "p_reserved": 0.03},                              # restructuring-heavy
+    {"depth": 1, "pb": 0.2, "p_attach": 0.12, "p_detach": 0.04, "p_reserved": 0.02,
+     "data_weights": {"set_dataset": 5, "delete": 4, "move": 4, "copy": 2, "create_group": 1.5, "set_attr": 1.5, "del_attr": 0.5,
+                      "require_group": 0}},                                                # few paths, rewritten over and over
 ]
 
 
